@@ -8,7 +8,7 @@ use yasna::Tag;
 #[cfg(feature = "pem")]
 use crate::ENCODE_CONFIG;
 use crate::{
-	dt_strip_nanos, dt_to_generalized, oid, write_distinguished_name, write_dt_utc_or_generalized,
+	check_time, dt_strip_nanos, dt_to_generalized, oid, write_distinguished_name, write_dt_utc_or_generalized,
 	write_x509_authority_key_identifier, write_x509_extension, Certificate, Error, Issuer,
 	KeyIdMethod, KeyPair, KeyUsagePurpose, SerialNumber,
 };
@@ -216,6 +216,14 @@ impl CertificateRevocationListParams {
 	}
 
 	fn serialize_der(&self, issuer: Issuer) -> Result<Vec<u8>, Error> {
+		check_time(self.this_update)?;
+		check_time(self.next_update)?;
+		for revoked_cert in &self.revoked_certs {
+			check_time(revoked_cert.revocation_time)?;
+			if let Some(invalidity_date) = revoked_cert.invalidity_date {
+				check_time(invalidity_date)?;
+			}
+		}
 		issuer.key_pair.sign_der(|writer| {
 			// Write CRL version.
 			// RFC 5280 §5.1.2.1:
